@@ -811,3 +811,17 @@ package gorm
 //@   min-sites 2
 //@   assert same-context: arg0.Statement.Context == db.Statement.Context [C18]
 //@   assert same-connection: arg0.Statement.ConnPool == db.Statement.ConnPool [C04,C18]
+
+//@ # ---------- C17: registration order survives the '*' pre-sort ----------
+//@ # Callbacks registered without Before/After run in registration order and built-ins keep their relative order:
+//@ # the pass that moves Before("*") / After("*") callbacks to the ends must be a stable sort.
+//@ site star-presort-is-stable
+//@   match call sort.SliceStable
+//@   in gorm.sortCallbacks
+//@   min-sites 1
+//@   assert sorts-the-callback-list: true [C17]
+//@ site no-unstable-sort-of-callbacks
+//@   match call sort.Slice | call sort.Sort
+//@   in gorm.sortCallbacks gorm.(*processor).compile
+//@   min-sites 0
+//@   assert only-stable-sorts: false [C17]
